@@ -146,7 +146,10 @@ func (cs *ConsensusState) catchupReplay(csHeight int64) error {
 		// it will attempt to eg double sign but we can just ignore it
 		// since the votes will be replayed and we'll get to the next step
 		if err := cs.readReplayMessage([]byte(line), nil); err != nil {
-			return err
+			// a record torn by a crash cannot be decoded; the records after it were written by a later
+			// incarnation that had not seen it either, so skipping it reproduces that incarnation's state
+			log.Warn("Replay: skipping unreadable wal record", zap.String("error", err.Error()))
+			continue
 		}
 	}
 	log.Info("Replay: Done")
